@@ -275,8 +275,12 @@ func runScenario(s Scenario) outcome {
 			// asserted when every notification of the table that started before the Add had returned >= 5 ms before the Add started
 			// and the most recent of them is at or beyond the waiter's revision (the queue keeps the latest notified revision)
 			if w.cancelAt.IsZero() && end.Sub(w.addReturn) > time.Second {
+				// the notifications of this table that started before the Add returned; the one that started last is "the latest" only if
+				// every other one had RETURNED before it started (Notify is synchronous, so the queue then processed them in that order;
+				// two overlapping Notify calls can be processed in either order and leave either revision as the remembered one)
 				var latest *notif
 				clean := true
+				var rel []*notif
 				for _, n := range notifs {
 					if n.ev.Table != w.ev.Table || !n.start.Before(w.addReturn) {
 						continue
@@ -285,12 +289,14 @@ func runScenario(s Scenario) outcome {
 						clean = false
 						break
 					}
+					rel = append(rel, n)
 					if latest == nil || n.start.After(latest.start) {
-						if latest != nil && n.start.Sub(latest.start) < 5*time.Millisecond {
-							clean = false
-							break
-						}
 						latest = n
+					}
+				}
+				for _, n := range rel {
+					if n != latest && !n.end.Before(latest.start) {
+						clean = false
 					}
 				}
 				if clean && latest != nil && latest.ev.Rev >= w.ev.Rev {
